@@ -70,6 +70,17 @@ def run_bounded(chk):
                                                                                "vertex_distances": d.tolist()}))
                     else:
                         core = shape
+                        if klass == "ConvexPolygon":
+                            n = np.asarray(shape.normal, float)
+                            off = abs(float(np.dot(n, c - P[0])))
+                            dists = []
+                            for k in range(len(P)):
+                                e = P[(k + 1) % len(P)] - P[k]
+                                dists.append(np.linalg.norm(np.cross(c - P[k], e)) / np.linalg.norm(e))
+                            if off > 1e-7 * s or max(abs(d - r) for d in dists) > 1e-7 * s:
+                                fails.append((f"{name}/{member}/s={s:g}/{pname}", {"points": P.tolist(), "centre": c.tolist(), "radius": r,
+                                                                                   "distance_of_centre_from_plane": off,
+                                                                                   "edge_line_distances": [float(d) for d in dists]}))
                         if klass == "ConvexPolyhedron":
                             dist = np.asarray(core._equations[:, :3] @ c + core._equations[:, 3])
                             if np.max(np.abs(dist + r)) > 1e-7 * s:
